@@ -771,6 +771,45 @@ func (x *runner) call(ci int) bool {
 				}
 			}
 		}
+		// Which witness did the detector act on?  It stops at the first conflict it can confirm and hands that
+		// witness the evidence.  The both-sides claim is made only when that witness is one whose backing the
+		// precondition has established (it may be another conflicting witness - e.g. one whose trace has pivots
+		// from which the primary cannot back its header - and the witnesses of the precondition may have
+		// answered only after the call returned).  If no witness was handed evidence at all, the claim is made
+		// only if a witness of the precondition had delivered its conflicting header before the call returned
+		// and no other provider had delivered a conflicting one.
+		actedOnW, actedOnOther, deliveredW := false, false, false
+		for _, e := range win {
+			if e.Kind == "evidence" && e.Prov != pid {
+				if isW[e.Prov] {
+					actedOnW = true
+				} else {
+					actedOnOther = true
+				}
+			}
+			if e.Kind == "reply" && e.lb != nil && isW[e.Prov] && e.Height == dchk.th && e.Hash != pHash {
+				deliveredW = true
+			}
+		}
+		claimEvidence := actedOnW || (!actedOnOther && deliveredW && !otherConflict)
+		if actedOnW && !actedOnOther {
+			// restrict the pairing to the witnesses of the precondition
+			bothSides = false
+			for _, e := range win {
+				if e.Kind != "evidence" || !isW[e.Prov] || e.ev == nil || !returned[pid][fmt.Sprintf("%d/%s", e.Height, e.Hash)] {
+					continue
+				}
+				for _, e2 := range win {
+					if e2.Kind == "evidence" && e2.Prov == pid && e2.ev != nil && returned[e.Prov][fmt.Sprintf("%d/%s", e2.Height, e2.Hash)] {
+						bothSides = true
+					}
+				}
+			}
+		}
+		if !claimEvidence {
+			k.Count("oracleD.evidence_claim_not_made_other_witness_acted_on_or_reply_after_return", 1)
+			bothSides = true
+		}
 		var problems []string
 		if !errors.Is(err, light.ErrLightClientAttack) {
 			problems = append(problems, fmt.Sprintf("the call returned %q instead of the attack error", fmt.Sprint(err)))
